@@ -106,7 +106,7 @@ pub fn search() -> Option<String> {
     for &a in &small { hist.push(vec![a]); }
     for &a in &small { for &b in &small { hist.push(vec![a, b]); } }
     for &a in &[0u8, 1, 9] { for &b in &[2u8, 10, 26, 42] { for &c in &small { hist.push(vec![a, b, 3, c]); } } }
-    for _ in 0..1500 { let n = 3 + r.below(6); hist.push((0..n).map(|_| r.below(256) as u8).collect()); }
+    for _ in 0..(if crate::thorough() { 12000 } else { 1500 }) { let n = 3 + r.below(6); hist.push((0..n).map(|_| r.below(256) as u8).collect()); }
     for (i, h) in hist.iter().enumerate() {
         for ft in 0..TEXTS.len() {
             let fp = (i + ft) % w.preds.len();
